@@ -12,7 +12,8 @@ From Coq Require Import List Arith Bool Reals QArith.
 From TLV Require Import Base.Ops Base.Tensor Base.RSum Model.Svd Proofs.SvdProofsAux Proofs.SvdProofs
   Proofs.SvdNNProofs Proofs.SvdSymeigProofs Proofs.SvdRandProofs Proofs.SvdInterfaceProofs
   Proofs.SvdGramProofs Proofs.SvdSymeigFull Proofs.SvdMaskProofs Proofs.SvdDecisions
-  Proofs.SvdWitness Proofs.SvdSymeigShapes Proofs.SvdEckartYoung Proofs.SvdRandE2E Proofs.SvdInterfaceAll Proofs.SvdSymeigBest Base.BigSum Model.SvdConj Proofs.SvdConjProofs Model.SvdValidate Proofs.SvdValidateProofs Proofs.SvdUnique Model.SvdComplex.
+  Proofs.SvdWitness Proofs.SvdSymeigShapes Proofs.SvdEckartYoung Proofs.SvdRandE2E Proofs.SvdInterfaceAll Proofs.SvdSymeigBest Base.BigSum Model.SvdConj Proofs.SvdConjProofs Model.SvdValidate Proofs.SvdValidateProofs Proofs.SvdUnique Model.SvdComplex
+  Proofs.SvdRandTS Proofs.SvdComplexR Proofs.SvdComplexModel Proofs.SvdDecisions2.
 Import ListNotations.
 Local Open Scope nat_scope.
 
@@ -1103,3 +1104,170 @@ Print Assumptions C05_symeig_tall_S_true.
 Example C05_complex_flip_example :
   svd_flip_c (fun q => q) [[(0, 1)%Q]] [[(1, 0)%Q]] true = ([[(1, 0)%Q]], [[(0, 1)%Q]]).
 Proof. vm_compute. reflexivity. Qed.
+
+(* ================= ROUND 7 ================= *)
+(* randomized_svd, TRANSPOSED branch (range finder on M^T, V' = V @ Q^T), rows of M covered by Q (PARTIAL in that hypothesis only): the
+   returned singular values are the leading singular values of EVERY singular value decomposition of M (mirror of C05_randomized_S_true_partial) *)
+Theorem C05_randomized_S_true_transposed_partial : forall (svd : list (list R) -> bool -> triple R) (qr : nat -> list (list R) -> list (list R))
+    (G M : list (list R)) d1 d2 n n_over n_iter c U Sg V,
+  rect d1 d2 M -> 1 <= d2 -> c <= d2 ->
+  let k := n_kept d1 d2 n in
+  dec_rand_transposed d1 d2 k (Nat.min d1 d2) (dec_rand_ndims k n_over (Nat.max d1 d2)) = true ->
+  let Q := range_finder Rops qr (transp Rops d2 M) d1 G n_iter in
+  rect d2 c Q -> orthonormal_cols d2 c (mget Rops Q) -> coversT d1 d2 c (mget Rops M) (mget Rops Q) ->
+  let Mred := transp Rops d1 (mmul Rops d1 (transp Rops c Q) (transp Rops d2 M)) in
+  (forall f, svd_contract d1 c (mget Rops Mred) f (svd Mred f)) ->
+  randomized_svd Rops svd qr G M d1 d2 n n_over n_iter = (U, Sg, V) ->
+  forall Ux Sx Vx, svd_contract d1 d2 (mget Rops M) false (Ux, Sx, Vx) ->
+  forall t, t < length Sg -> nth t Sg 0%R = nth t Sx 0%R.
+Proof. exact randomized_S_true_transposed. Qed.
+Print Assumptions C05_randomized_S_true_transposed_partial.
+
+(* --- COMPLEX SCALARS, C = R x R (a complex matrix = real part, imaginary part).  The three real theorems (error identity, Eckart-Young-Mirsky,
+       uniqueness of the singular values) transported through the multiplicative real embedding [[A, -B], [B, A]] (Proofs/SvdComplexR.v).
+       herm_cols / herm_rows: Hermitian orthonormality; cprod_re / cprod_im: real and imaginary part of sum_t U[i,t] s_t V[t,j]; FULL --- *)
+Theorem C05_complex_trunc_error : forall m n p (Mr Mi Ur Ui Vr Vi : nat -> nat -> R) (s : nat -> R),
+  herm_cols m p Ur Ui -> herm_rows p n Vr Vi ->
+  (forall i j, i < m -> j < n -> Mr i j = cprod_re p Ur Ui Vr Vi s i j) ->
+  (forall i j, i < m -> j < n -> Mi i j = cprod_im p Ur Ui Vr Vi s i j) ->
+  forall k, k <= p ->
+  cfrob2 m n (fun i j => (Mr i j - cprod_re k Ur Ui Vr Vi s i j)%R) (fun i j => (Mi i j - cprod_im k Ur Ui Vr Vi s i j)%R)
+  = rsum (p - k) (fun t => ((s (k + t)%nat)^2)%R).
+Proof. exact complex_trunc_error. Qed.
+Print Assumptions C05_complex_trunc_error.
+
+Theorem C05_complex_eckart_young : forall m n p (Mr Mi Ur Ui Vr Vi : nat -> nat -> R) (s : nat -> R),
+  herm_cols m p Ur Ui -> herm_rows p n Vr Vi ->
+  (forall i j, i < m -> j < n -> Mr i j = cprod_re p Ur Ui Vr Vi s i j) ->
+  (forall i j, i < m -> j < n -> Mi i j = cprod_im p Ur Ui Vr Vi s i j) ->
+  (forall t, t < p -> (0 <= s t)%R) -> (forall i j, i <= j -> j < p -> (s j <= s i)%R) ->
+  forall k (Br Bi Xr Xi Yr Yi : nat -> nat -> R),
+  (forall i j, i < m -> j < n -> Br i j = cprod_re k Xr Xi Yr Yi (fun _ => 1%R) i j) ->
+  (forall i j, i < m -> j < n -> Bi i j = cprod_im k Xr Xi Yr Yi (fun _ => 1%R) i j) ->
+  (rsum (p - k) (fun t => ((s (k + t)%nat)^2)%R) <= cfrob2 m n (fun i j => (Mr i j - Br i j)%R) (fun i j => (Mi i j - Bi i j)%R))%R.
+Proof. exact complex_eckart_young. Qed.
+Print Assumptions C05_complex_eckart_young.
+
+Theorem C05_complex_singular_values_unique : forall m n p (Mr Mi Ur Ui Vr Vi : nat -> nat -> R) (s : nat -> R),
+  herm_cols m p Ur Ui -> herm_rows p n Vr Vi ->
+  (forall i j, i < m -> j < n -> Mr i j = cprod_re p Ur Ui Vr Vi s i j) ->
+  (forall i j, i < m -> j < n -> Mi i j = cprod_im p Ur Ui Vr Vi s i j) ->
+  (forall t, t < p -> (0 <= s t)%R) -> (forall i j, i <= j -> j < p -> (s j <= s i)%R) ->
+  forall (Ur' Ui' Vr' Vi' : nat -> nat -> R) (s' : nat -> R),
+  herm_cols m p Ur' Ui' -> herm_rows p n Vr' Vi' ->
+  (forall t, t < p -> (0 <= s' t)%R) -> (forall i j, i <= j -> j < p -> (s' j <= s' i)%R) ->
+  (forall i j, i < m -> j < n -> Mr i j = cprod_re p Ur' Ui' Vr' Vi' s' i j) ->
+  (forall i j, i < m -> j < n -> Mi i j = cprod_im p Ur' Ui' Vr' Vi' s' i j) ->
+  forall t, t < p -> s t = s' t.
+Proof. exact complex_singular_values_unique. Qed.
+Print Assumptions C05_complex_singular_values_unique.
+
+(* truncated_svd OF THE MODEL (polymorphic in the scalar type; the complex correspondence runs this very function) on complex scalars, for LAPACK
+   answers meeting the complex SVD contract csvd_contract, 0 <= n_eigenvecs <= min(shape): documented shapes, S = the leading values (real,
+   non-negative, non-increasing), Hermitian-orthonormal factors, squared error = the discarded squared singular values, and no complex matrix
+   of rank <= n_eigenvecs is closer to M (FULL) *)
+Theorem C05_complex_truncated_best : forall (oracle : bool -> triple CR) d1 d2 (Mr Mi : nat -> nat -> R) r,
+  (forall f, csvd_contract d1 d2 Mr Mi f (oracle f)) -> r <= Nat.min d1 d2 ->
+  let So := snd (fst (oracle false)) in
+  let '(U, Sg, V) := truncated_svd oracle d1 d2 (Some r) in
+  let Er := fun i j => (Mr i j - cprod_re r (cre U) (cim U) (cre V) (cim V) (sre Sg) i j)%R in
+  let Ei := fun i j => (Mi i j - cprod_im r (cre U) (cim U) (cre V) (cim V) (sre Sg) i j)%R in
+  shape3 (U, Sg, V) d1 r r r d2 /\ Sg = firstn r So /\
+  (forall t, t < r -> snd (nth t Sg (0%R, 0%R)) = 0%R /\ (0 <= sre Sg t)%R) /\
+  (forall i j, i <= j -> j < r -> (sre Sg j <= sre Sg i)%R) /\
+  herm_cols d1 r (cre U) (cim U) /\ herm_rows r d2 (cre V) (cim V) /\
+  cfrob2 d1 d2 Er Ei = rsum (Nat.min d1 d2 - r) (fun t => ((sre So (r + t)%nat)^2)%R) /\
+  (forall Br Bi, crank_le d1 d2 r Br Bi ->
+     (cfrob2 d1 d2 Er Ei <= cfrob2 d1 d2 (fun i j => (Mr i j - Br i j)%R) (fun i j => (Mi i j - Bi i j)%R))%R).
+Proof. exact complex_truncated_best. Qed.
+Print Assumptions C05_complex_truncated_best.
+
+Theorem C05_complex_truncated_S_true : forall (oracle : bool -> triple CR) d1 d2 (Mr Mi : nat -> nat -> R) r Ux Sx Vx,
+  (forall f, csvd_contract d1 d2 Mr Mi f (oracle f)) -> r <= Nat.min d1 d2 ->
+  csvd_contract d1 d2 Mr Mi false (Ux, Sx, Vx) ->
+  forall t, t < r -> sre (snd (fst (truncated_svd oracle d1 d2 (Some r)))) t = sre Sx t.
+Proof. exact complex_truncated_S_true. Qed.
+Print Assumptions C05_complex_truncated_S_true.
+
+Example C05_complex_contract_satisfiable : forall f,
+  csvd_contract 1 1 (fun _ _ => 0%R) (fun _ _ => 2%R) f ([[(0%R, 1%R)]], [(2%R, 0%R)], [[(1%R, 0%R)]]).
+Proof. exact complex_contract_witness. Qed.
+
+(* phase resolution over C (svd_flip as of ca31a67), function level: columns of U times conj(g_t), rows of V times g_t, |g_t| = 1: the product and
+   the Hermitian orthonormality of both factors are kept (FULL; the list-level model Model/SvdConj.v is tied to it by the correspondence only) *)
+Theorem C05_complex_phase_product : forall p (Ur Ui Vr Vi : nat -> nat -> R) (gr gi : nat -> R),
+  (forall t, t < p -> ((gr t)^2 + (gi t)^2 = 1)%R) ->
+  forall (s : nat -> R) i j,
+  cprod_re p (Ur' Ur Ui gr gi) (Ui' Ur Ui gr gi) (Vr' Vr Vi gr gi) (Vi' Vr Vi gr gi) s i j = cprod_re p Ur Ui Vr Vi s i j /\
+  cprod_im p (Ur' Ur Ui gr gi) (Ui' Ur Ui gr gi) (Vr' Vr Vi gr gi) (Vi' Vr Vi gr gi) s i j = cprod_im p Ur Ui Vr Vi s i j.
+Proof. exact phase_product. Qed.
+Print Assumptions C05_complex_phase_product.
+
+Theorem C05_complex_phase_orthonormal : forall m n p (Ur Ui Vr Vi : nat -> nat -> R) (gr gi : nat -> R),
+  (forall t, t < p -> ((gr t)^2 + (gi t)^2 = 1)%R) ->
+  (herm_cols m p Ur Ui -> herm_cols m p (Ur' Ur Ui gr gi) (Ui' Ur Ui gr gi)) /\
+  (herm_rows p n Vr Vi -> herm_rows p n (Vr' Vr Vi gr gi) (Vi' Vr Vi gr gi)).
+Proof. intros m n p Ur Ui Vr Vi gr gi H. split; [exact (phase_herm_cols m p Ur Ui gr gi H) | exact (phase_herm_rows n p Vr Vi gr gi H)]. Qed.
+Print Assumptions C05_complex_phase_orthonormal.
+
+(* --- DECISION LOGIC TIE, round 7 (Proofs/SvdDecisions2.v; these are definitional / short inductions): the model functions factor through the
+       named decision functions that the harness re-derives from the Python ast on every run and proves equal (generated goals):
+       make_svd_non_negative's per-column choice (skip / positive parts / negative parts), loop range and final chain; svd_flip's padding of the
+       sign vector; the shape of St and the number of diagonal entries in the imputation step; and (generated function, proved equal to
+       range_finder_conj by induction over n_iter on every run) the tl.qr call sequence of randomized_range_finder --- *)
+Theorem C05_nn_pair_factored : forall (F : Type) (Op : fops F) (sq : F -> F) j s (x y : list F),
+  nn_pair Op sq j s x y = match j with 0 => nn_lead Op sq s x y | _ => nn_body Op sq s x y end.
+Proof. exact @nn_pair_factored. Qed.
+Print Assumptions C05_nn_pair_factored.
+
+Theorem C05_make_nn_factored : forall (F : Type) (Op : fops F) (sq : F -> F) eps (M U : list (list F)) Sg V ty,
+  make_svd_non_negative Op sq eps M U Sg V ty =
+  let c := ncols U in let r := length V in let q := snd (dec_nn_range c r) in
+  let pairs := map (fun j => nn_pair Op sq j (nth j Sg (f0 Op)) (col Op j U) (nth j V [])) (seq 0 q) in
+  let Wt := map fst pairs ++ repeat (repeat (f0 Op) (length U)) (c - q) in
+  let H := map snd pairs ++ map (fun row => map (fun _ => f0 Op) row) (skipn q V) in
+  let W := cols_of Op (length U) Wt in
+  match dec_nn_final ty with
+  | FinSoft => (soft_thr Op eps W, soft_thr Op eps H)
+  | FinFill => let avg := fabs Op (fmean Op M) in (fill_avg Op eps avg W, fill_avg Op eps avg H)
+  end.
+Proof. exact @make_nn_factored. Qed.
+Print Assumptions C05_make_nn_factored.
+
+Theorem C05_nn_pairs_factored : forall (F : Type) (g : nat -> list F * list F) cu rv,
+  1 <= Nat.min cu rv ->
+  let '(lo, hi) := dec_nn_range cu rv in
+  map g (seq 0 (Nat.min cu rv)) = g 0 :: map g (seq lo (hi - lo)).
+Proof. exact @nn_pairs_factored. Qed.
+Print Assumptions C05_nn_pairs_factored.
+
+Theorem C05_fit_factored : forall (F : Type) (Op : fops F) n (l : list F),
+  fit Op n l = let '(pad, b) := dec_flip_pad (length l) n in firstn b (l ++ repeat (f1 Op) pad).
+Proof. exact @fit_factored. Qed.
+Print Assumptions C05_fit_factored.
+
+Theorem C05_impute_factored : forall (F : Type) (Op : fops F) d2 (M mask U : list (list F)) Sg V iters,
+  impute Op d2 M mask U Sg V =
+  let '(_, r, c, l) := dec_mask_st iters (ncols U) (length V) (length Sg) in
+  let St := st_matrix_l Op r c l Sg in
+  let R := mmul Op d2 (mmul Op (length V) U St) V in
+  mzip (fadd Op) (mzip (fmul Op) M mask) (mzip (fun x m => fmul Op x (fsub Op (f1 Op) m)) R mask).
+Proof. exact @impute_factored. Qed.
+Print Assumptions C05_impute_factored.
+
+(* the conjugate-aware randomized_svd / the mask-aware flip-parametric interface (executed at the Gaussian rationals by the complex
+   correspondence) ARE the real model for the identity conjugation / the real flip; the scalar-generic final_test_g evaluated by the per-run
+   sketch check IS final_test of C05_range_finder_covers at Rops *)
+Theorem C05_randomized_conj_real : forall (F : Type) (Op : fops F) svd qr G (M : list (list F)) d1 d2 n n_over n_iter,
+  randomized_svd_conj Op (fun x => x) svd qr G M d1 d2 n n_over n_iter = randomized_svd Op svd qr G M d1 d2 n n_over n_iter.
+Proof. exact @randomized_conj_real. Qed.
+Print Assumptions C05_randomized_conj_real.
+
+Theorem C05_interface_cmask_real : forall (F : Type) (Op : fops F) funs meth d2 (M : list (list F)) n flip ub mask iters sq eps,
+  svd_interface_cmask Op (svd_flip Op) funs meth d2 M n flip ub mask iters = svd_interface Op funs meth d2 M n flip ub None mask iters sq eps.
+Proof. exact @interface_cmask_real. Qed.
+Print Assumptions C05_interface_cmask_real.
+
+Theorem C05_final_test_g_real : forall qr A cA G n_iter, final_test_g Rops qr A cA G n_iter = final_test qr A cA G n_iter.
+Proof. exact final_test_g_real. Qed.
+Print Assumptions C05_final_test_g_real.
